@@ -6,6 +6,20 @@ PENDING = "check not built yet in this round (specification and driver in progre
 
 # id -> (level text, level note, technique, design ref)
 BUILT = {
+ "C08": ("Gibbs.tla derives, from the likelihood and priors of the documented model, the script of one sweep: every draw in block "
+         "order with the parameters of the full conditional of its element as terms over the sampler's state at that moment "
+         "(residuals rebuilt from the parameters, never from the running fitted values; conjugate gamma updates incl. the "
+         "auxiliary-variable shrinkage and the multiplicative gamma process; documented clipping bounds); TLC checks block order / "
+         "once-per-element and Coherent (the observations a block patches are exactly those that depend on the element, once "
+         "each) for every small dataset and shows that Coherent fails exactly for self-pair rows. Real seeded chains (3/8 sweeps, "
+         "embedding sizes 1..4, samples / treatments without data, single-agent and all-control rows) are instrumented from "
+         "outside (numpy.random.normal/gamma, the MVN routine, per-block wrappers) and every draw's arguments, every stored value, "
+         "alpha, the fitted values after every block, tau and the exported sample are compared with the evaluated terms; the MVN "
+         "routine is checked through Q x(0) = b and Q Cov = I with controlled z.",
+         "numpy's normal / gamma are trusted to realise the requested parameters; float32 state: 5e-4 of the magnitude; self-pair "
+         "datasets are the known finding C08/self-pair-row.",
+         "TLA+ derivation of the sweep script + TLC design invariants; trace comparison of instrumented real chains against the evaluated terms",
+         "5/C08"),
  "C04": ("TrainSet.tla constructs, for every partially observed screen of 2/3 rows (control in either or both positions, self-pair, "
          "any mask, value classes ok / 0 / 1 / negative / NaN), the exact sequence each shipped model must be handed through the "
          "train_model path (which rows, in which order, with which transform as a term, which single-effect table) and when it "
